@@ -214,9 +214,13 @@ pub fn gen_valid(src: &mut Src, o: &TextOpts) -> TextCase {
         }
         1 => {
             let mut a = [0u8; 16];
-            match src.below(5) {
+            match src.below(6) {
                 0 => {
                     f.push("ipv6-unspecified");
+                }
+                5 => {
+                    f.push("ipv6-special-shape");
+                    a = crate::gens::gen_v6(src);
                 }
                 1 => {
                     a[15] = 1;
